@@ -228,7 +228,8 @@ class Body:
                 elif pl[1] != [] and self.is_ref_local(l):
                     # copy of a reference stored in a field/upvar: pointee of that place
                     r0, p0 = self.norm(pl)
-                    res = (r0, tuple(p0) + (('*',),))
+                    t2 = self._tuple_ref_target(r0, list(p0))
+                    res = t2 if t2 is not None else (r0, tuple(p0) + (('*',),))
             elif rv[0] == 'cast' and rv[1].startswith('Coerce') and is_place_op(rv[2]):
                 pl = rv[2][1]
                 if pl[1] == [] and self.is_ref_local(pl[0]):
@@ -253,7 +254,12 @@ class Body:
                     else:
                         root = ('d', root[1])
                 else:
-                    path.append(('*',))
+                    tgt = self._tuple_ref_target(root, path)
+                    if tgt is not None:
+                        root, p0 = tgt
+                        path = list(p0)
+                    else:
+                        path.append(('*',))
             elif pr == '?':
                 path.append(('?',))
             elif pr[0] == 'f':
@@ -267,6 +273,23 @@ class Body:
             elif pr[0] == 'dc':
                 path.append(('dc', pr[1]))
         return (root, tuple(path))
+
+    def _tuple_ref_target(self, root, path):
+        """`(*(t.i))` where local t is built once as a tuple whose i-th operand is a reference with a
+        known target: the place it points to"""
+        if root[0] != 'l' or len(path) != 1 or path[0][0] != 'f' or path[0][2] != '{tuple}':
+            return None
+        defs = self._all_defs().get(root[1], [])
+        if len(defs) != 1 or defs[0][2] != 'a' or defs[0][3] != [] or defs[0][4][0] != 'agg' or defs[0][4][1].get('k') != 'tuple':
+            return None
+        try:
+            i = int(path[0][1])
+            op = defs[0][4][2][i]
+        except Exception:
+            return None
+        if not is_place_op(op) or op[1][1] != []:
+            return None
+        return self.ref_target(op[1][0])
 
     def _const_local(self, l):
         """integer value of local l if its only definition is an integer constant (index locals)"""
